@@ -445,6 +445,54 @@ def openDocumented (f : OpenFlags) (fileExists : Bool) : Option OpenOutcome :=
   else if f.append then some .appended
   else none
 
+/-! ## FileWriter sessions after a successful open (C14): seeks and writes on the open file -/
+
+/-- an open `FileWriter`: bytes on disk (after every flush), put position, and whether the descriptor is in append
+    mode (`std::ios_base::app`: every write lands at the end of the file, wherever the put position was moved) -/
+structure FileW where
+  content : Bytes
+  pos : Nat
+  app : Bool
+  deriving DecidableEq, Repr
+
+/-- write `b` at `pos` of a file of content `c` in non-append mode: a gap beyond the end reads back as zeros -/
+def fileStore (c : Bytes) (pos : Nat) (b : Bytes) : Bytes :=
+  if b.isEmpty then c
+  else (c ++ List.replicate (pos - c.length) 0).take pos ++ b ++ c.drop (pos + b.length)
+
+namespace FileW
+/-- the session a successful open starts: `Append` opens the descriptor in append mode (also when it creates the
+    file) and on an existing file starts at its end (`ate`) -/
+def opened (f : OpenFlags) (prior : Option Bytes) : Option FileW :=
+  match openFile f prior.isSome with
+  | .refused => none
+  | .createdEmpty | .truncated => some { content := [], pos := 0, app := f.append }
+  | .appended => some { content := prior.getD [], pos := (prior.getD []).length, app := true }
+
+/-- one `FileWriter` operation (arguments far below 2^63: the wrap-around guards of the seeks are not modelled) -/
+def step (s : FileW) : WOp → Bool × FileW
+  | .write b =>
+      -- `tellp` is the put position plus what is still buffered, also in append mode (writes smaller than the stream buffer)
+      if s.app then (true, { s with content := s.content ++ b, pos := s.pos + b.length })
+      else (true, { s with content := fileStore s.content s.pos b, pos := s.pos + b.length })
+  | .seek p => (true, { s with pos := p })
+  | .fwd d => (true, { s with pos := s.pos + d })
+  | .back d => if d > s.pos then (false, s) else (true, { s with pos := s.pos - d })
+  | .seekBegin => (true, { s with pos := 0 })
+  -- `SeekForward(Length() - Position())`: beyond the end the difference wraps and the overflow guard refuses
+  | .seekEnd => if s.pos > s.content.length then (false, s) else (true, { s with pos := s.content.length })
+
+def run (s : FileW) : List WOp → FileW
+  | [] => s
+  | op :: ops => run (step s op).2 ops
+
+/-- the bytes the history wrote, in order -/
+def written : List WOp → Bytes
+  | [] => []
+  | .write b :: ops => b ++ written ops
+  | _ :: ops => written ops
+end FileW
+
 /-- content of the destination after open, one write of `b`, close -/
 def openWriteClose (f : OpenFlags) (prior : Option Bytes) (b : Bytes) : Option Bytes × Bool :=
   match openFile f prior.isSome with
